@@ -98,6 +98,21 @@ class Run:
                              "states_generated": r.get("generated"), "depth": r.get("depth"), "wall_s": round(r["wall"], 1)})
         return r
 
+    def model_check_many(self, jobs, timeout=1500):
+        """several exhaustive runs side by side: jobs = [(module, cfg, what), ...]"""
+        w = max(4, NCPU // max(1, len(jobs)))
+        with ThreadPoolExecutor(max_workers=len(jobs)) as ex:
+            futs = [ex.submit(self.tlc, m, c, w, timeout) for (m, c, what) in jobs]
+            res = [f.result() for f in futs]
+        for r, (m, c, what) in zip(res, jobs):
+            if not r["ok"]:
+                tail = "\n".join(r["out"].splitlines()[-60:])
+                raise Inconclusive("TLC did not verify the design (%s, %s): rc=%s violated=%s\n%s" % (m, what, r["rc"], r.get("violated"), tail))
+            self.states += r.get("distinct", 0)
+            self.transitions += r.get("generated", 0)
+            self.mc_runs.append({"what": what, "module": m, "distinct_states": r.get("distinct"), "states_generated": r.get("generated"),
+                                 "depth": r.get("depth"), "wall_s": round(r["wall"], 1)})
+
     def expect_counterexample(self, module, cfg, what, invariant=None, **kw):
         """TLC with a deviation switched on must find the counterexample (non-vacuity of the property)."""
         r = self.tlc(module, cfg, **kw)
